@@ -29,6 +29,7 @@ where
 
     let mut is_eol = false;
     let mut len = 1;
+    let name_start = definition.name().len();
 
     loop {
         let src = reader.fill_buf()?;
@@ -43,16 +44,7 @@ where
                     SPACE | HORIZONTAL_TAB => &src[..i],
                     LINE_FEED => {
                         is_eol = true;
-
-                        let line = &src[..i];
-
-                        if line.ends_with(&[CARRIAGE_RETURN]) {
-                            // SAFETY: `line.len()` is > 0.
-                            let end = line.len() - 1;
-                            &line[..end]
-                        } else {
-                            line
-                        }
+                        &src[..i]
                     }
                     _ => unreachable!(),
                 };
@@ -75,7 +67,14 @@ where
         }
     }
 
-    if !is_eol {
+    if is_eol {
+        // The carriage return of a CRLF line ending may have been read from an earlier buffer.
+        let name = definition.name_mut();
+
+        if name[name_start..].ends_with(&[CARRIAGE_RETURN]) {
+            name.pop();
+        }
+    } else {
         len += read_line(reader, definition.description_mut())?;
     }
 
